@@ -1,3 +1,6 @@
 import XV.Gen.Utf8Tables
 import XV.Spec.Utf8
 import XV.Model.Utf8
+import XV.Props.C05
+import XV.Props.C11
+import XV.Props.C07
